@@ -183,6 +183,19 @@ def sources(draw, nfilt, k=None, logmodels=None, min_fit=2, flags=None, distance
             'flags': flags, 'flux': flux, 'err': err, 'planted': planted}
 
 
+def integerize(s):
+    """the same kind of source with integer-valued fluxes (and errors): only for flags in {0,1,2,3,9} and confidences 0/1"""
+    if any(f == 4 for f in s['flags']):
+        return s
+    if any(f in (2, 3) and e not in (0., 1.) for f, e in zip(s['flags'], s['err'])):
+        return s
+    t = dict(s)
+    t['flux'] = [float(max(1, round(abs(v)))) if v == v and abs(v) < 1e15 else 1. for v in s['flux']]
+    t['err'] = [e if f in (2, 3) else float(max(1, round(abs(e)))) if abs(e) < 1e15 else 1. for f, e in zip(s['flags'], s['err'])]
+    t['int_arrays'] = True
+    return t
+
+
 def source_object(s):
     import numpy as np
     from sedfitter.source import Source
@@ -191,8 +204,14 @@ def source_object(s):
     o.x = s['x']
     o.y = s['y']
     o.valid = np.array(s['flags'], dtype=int)
-    o.flux = np.array(s['flux'], dtype=float)
-    o.error = np.array(s['err'], dtype=float)
+    if s.get('int_arrays'):
+        # photometry given as Python / numpy integers (legal: the setters accept any 1-d sequence)
+        o.flux = np.array([int(v) for v in s['flux']], dtype=np.int64)
+        o.error = np.array([int(v) for v in s['err']], dtype=np.int64) if all(float(v) == int(v) for v in s['err']) \
+            else np.array(s['err'], dtype=float)
+    else:
+        o.flux = np.array(s['flux'], dtype=float)
+        o.error = np.array(s['err'], dtype=float)
     return o
 
 
@@ -356,6 +375,10 @@ def distance_setup(draw, apertures, nfilt):
     step = draw(st.one_of(st.sampled_from([0.02, 0.025, 0.1, 0.5, 1.0]), logfloat(0.005, 1.)))
     shape = draw(st.sampled_from(['many', 'integer_ratio', 'beyond', 'within_step', 'single']))
     theta = draw(st.lists(st.floats(0.1, 30., allow_nan=False), min_size=nfilt, max_size=nfilt))
+    if draw(st.booleans()):
+        # filters usually share a few angular apertures (e.g. 3" for all IRAC bands)
+        pool = [theta[0], theta[0] * draw(st.sampled_from([1., 2., 0.5]))]
+        theta = [draw(st.sampled_from(pool)) for _ in range(nfilt)]
     amin, amax = apertures[0], apertures[-1]
     # smallest distance allowed [kpc]: theta_min * d * 1000 >= amin
     dlow = amin * (1. + 1e-6) / (min(theta) * 1000.)
@@ -403,12 +426,26 @@ def fit_case_3d(draw, max_models=6, max_filters=5, max_sources=4, formats=('v1',
     return {'format': fmt, 'memmap': memmap, 'law': law, 'filters': filters, 'grid': grid, 'sources': srcs,
             'setup': setup, 'av_ranges': [draw(av_ranges())], 'theta': setup['theta'],
             'ap_storage': draw(st.sampled_from(['asc', 'asc', 'asc', 'desc', 'shuffled'])),
+            # every convolved/<filter>.fits carries its own APERTURES table: a filter may tabulate only the first n_j
+            # apertures of the common grid (per-file tables; the cube holds one table for all wavelengths)
+            'ap_count_by_filter': ([draw(st.integers(1, len(grid['apertures']))) for _ in range(nf)]
+                                   if fmt in ('v1', 'v2name') and draw(st.integers(0, 2)) == 0 else None),
             'ap_shuffle': list(draw(st.permutations(list(range(len(grid['apertures'])))))),
             'law_units': draw(st.sampled_from([['um', 'cm2/g'], ['um', 'cm2/g'], ['nm', 'm2/kg']])),
             'ap_unit': draw(st.sampled_from(['AU', 'AU', 'pc', 'cm']))}
 
 
 AP_UNIT_FACTOR = {'AU': 1., 'pc': 1. / of.PC_AU, 'cm': 1.495978707e13}
+
+
+def tables_3d(case, m):
+    """-> (flux_table[j][a], aperture table(s)) of model m as the package tabulates them (per filter when they differ)"""
+    grid = case['grid']
+    counts = case.get('ap_count_by_filter')
+    if not counts or case['format'] == 'v2wav':
+        return grid['flux'][m], grid['apertures']
+    return ([grid['flux'][m][j][:counts[j]] for j in range(len(counts))],
+            [grid['apertures'][:counts[j]] for j in range(len(counts))])
 
 
 def build_package_3d(model_dir, case):
@@ -427,10 +464,12 @@ def build_package_3d(model_dir, case):
     pkgio.write_conf(model_dir, True, case['setup']['step'], version=None if fmt == 'v1' else 2)
     pkgio.write_parameters(model_dir, names, {'par1': [float(i) for i in range(len(names))]})
     if fmt in ('v1', 'v2name'):
+        counts = case.get('ap_count_by_filter')
         for j, f in enumerate(filters):
-            fl = [[grid['flux'][m][j][a] for a in aidx] for m in range(len(names))]
+            jidx = aidx if not counts else [a for a in aidx if a < counts[j]]
+            fl = [[grid['flux'][m][j][a] for a in jidx] for m in range(len(names))]
             er = [[0.05 * v for v in row] for row in fl]
-            pkgio.write_convolved(model_dir, f['name'], names, f['wav'], [grid['apertures'][a] for a in aidx], fl, er)
+            pkgio.write_convolved(model_dir, f['name'], names, f['wav'], [grid['apertures'][a] for a in jidx], fl, er)
     if fmt != 'v1':
         order = sorted(range(len(filters)), key=lambda j: filters[j]['wav'])
         wav = [filters[j]['wav'] for j in order]
